@@ -307,3 +307,42 @@ def py_hs_c_k(k, eta, sigma):
 def py_hs_S_k(k, eta, sigma):
     rho = 6 * eta / (np.pi * sigma ** 3)
     return 1.0 / (1.0 - rho * py_hs_c_k(k, eta, sigma))
+
+
+# --------------------------------------------------------------------------- reference self-consistency function
+
+def cost_ref(sp, x, pairs_of, ms='shipped'):
+    """Independent re-implementation of the self-consistent map r*(gamma_out - gamma_in) from the user-level spec:
+    closure in real space (reference closures/potentials), dense reference transforms, per-wavenumber matrix algebra.
+    Returns (y, worst condition number of I - Omega C)."""
+    types = sp['types']
+    n, L, dr, kT = len(types), int(sp['L']), float(sp['dr']), float(sp['kT'])
+    r, k, dk = grids(L, dr)
+    rho = np.array([sp['rho'][t] for t in types])
+    pair, site = rho_mats(rho)
+    gin = np.asarray(x, dtype=float).reshape(L, n, n) / r[:, None, None]
+    c = np.zeros((L, n, n))
+    W = np.zeros((L, n, n))
+    for (i, j), (a, b) in pairs_of(types):
+        key = '%s|%s' % (a, b)
+        sig = (sp['d'][a] + sp['d'][b]) / 2.0
+        ps, cs = sp['pot'][key], sp['clo'][key]
+        u = u_ref(dict(ps, sigma=snap(pot_sigma(ps, sig), r)), r, None) / kT
+        cij = c_ref(cs, r, gin[:, i, j], u, snap(sig, r), ms=ms)
+        c[:, i, j] = cij
+        c[:, j, i] = cij
+        w = w_ref(sp['om'][key], k) * site[i, j]
+        W[:, i, j] = w
+        W[:, j, i] = w
+    Ck = to_fourier(c, dr)
+    OC = W @ Ck
+    A = np.eye(n)[None] - OC
+    if not np.all(np.isfinite(A)):
+        return np.full(L * n * n, np.nan), np.inf
+    try:
+        cond = float(np.max(np.linalg.cond(A)))
+        H = np.linalg.solve(A, OC @ W) / pair
+    except np.linalg.LinAlgError:
+        return np.full(L * n * n, np.nan), np.inf
+    gout = to_real(H - Ck, dr)
+    return (r[:, None, None] * (gout - gin)).reshape(-1), cond
